@@ -848,7 +848,16 @@ package consensus
 //@ spec cfInRange(txn types.Transaction, cf types.CoveredFields) bool = idxInRange(cf.SiacoinInputs, len(txn.SiacoinInputs)) && idxInRange(cf.SiacoinOutputs, len(txn.SiacoinOutputs)) && idxInRange(cf.FileContracts, len(txn.FileContracts)) && idxInRange(cf.FileContractRevisions, len(txn.FileContractRevisions)) && idxInRange(cf.StorageProofs, len(txn.StorageProofs)) && idxInRange(cf.SiafundInputs, len(txn.SiafundInputs)) && idxInRange(cf.SiafundOutputs, len(txn.SiafundOutputs)) && idxInRange(cf.MinerFees, len(txn.MinerFees)) && idxInRange(cf.ArbitraryData, len(txn.ArbitraryData)) && idxInRange(cf.Signatures, len(txn.Signatures))
 
 //@ func (State).PartialSigHash
-//@   prop C10 C03
+//@   prop C10 C03 C12
+//@   ghost k int
+//@   preimage covers s.replayPrefix() when len(cf.SiacoinInputs) > 0
+//@   preimage covers s.replayPrefix() when len(cf.SiafundInputs) > 0
+//@   preimage covers txn.SiacoinInputs[cf.SiacoinInputs[k]] when 0 <= k && k < len(cf.SiacoinInputs)
+//@   preimage covers txn.SiafundInputs[cf.SiafundInputs[k]] when 0 <= k && k < len(cf.SiafundInputs)
+//@   preimage covers txn.SiacoinOutputs[cf.SiacoinOutputs[k]] when 0 <= k && k < len(cf.SiacoinOutputs)
+//@   preimage covers txn.SiafundOutputs[cf.SiafundOutputs[k]] when 0 <= k && k < len(cf.SiafundOutputs)
+//@   preimage covers txn.FileContracts[cf.FileContracts[k]] when 0 <= k && k < len(cf.FileContracts)
+//@   preimage covers txn.MinerFees[cf.MinerFees[k]] when 0 <= k && k < len(cf.MinerFees)
 //@   requires @covered-fields-in-range cfInRange(txn, cf)
 //@   requires s.Network != nil
 
@@ -925,6 +934,8 @@ package consensus
 // the accumulator (C04: v1 parents supplied in the block supplement).
 //@ spec suppMembers(s State, ts V1TransactionSupplement) bool = (forall j in 0..len(ts.SiacoinInputs) :: s.Elements.containsUnspentSiacoinElement(ts.SiacoinInputs[j].Share())) && (forall j in 0..len(ts.SiafundInputs) :: s.Elements.containsUnspentSiafundElement(ts.SiafundInputs[j].Share())) && (forall j in 0..len(ts.RevisedFileContracts) :: s.Elements.containsUnresolvedFileContractElement(ts.RevisedFileContracts[j].Share())) && (forall j in 0..len(ts.StorageProofs) :: s.Elements.containsUnresolvedFileContractElement(ts.StorageProofs[j].FileContract.Share()))
 //@ func validateSupplement
+//@   pure
+//@   prop C09
 //@   prop C10 C04
 //@   abstract
 //@   requires s.Network != nil
@@ -955,6 +966,8 @@ package consensus
 // ValidateBlock: every block-level check runs, and every transaction is validated against the
 // MidState its predecessors left behind before it is applied (the precondition of Apply*).
 //@ func ValidateBlock
+//@   pure
+//@   prop C09
 //@   prop C10 C01 C04 C08
 //@   requires s.Network != nil && s.Network.HardforkASIC.NonceFactor >= 1
 //@   requires cheight(s) >= s.Network.HardforkV2.FinalCutHeight ==> wval(s.Difficulty) != 0
@@ -969,6 +982,8 @@ package consensus
 
 // A block without its parent's supplement: weight limit, miner payouts, header, v2 height.
 //@ func ValidateOrphan
+//@   pure
+//@   prop C09
 //@   abstract
 //@   prop C10 C01 C13
 //@   requires s.Network != nil && s.Network.HardforkASIC.NonceFactor >= 1
